@@ -507,7 +507,7 @@ def _assigned_in(L):
                 l = l["c"][0]
             if l is not None and l["k"] in ("DeclRefExpr", "MemberExpr"):
                 out.setdefault(l.get("d") or l.get("n"), []).append(x)
-        elif k == "UnOp" and x.get("op") in ("++", "--"):
+        elif k == "UnOp" and (x.get("op") or "").replace("post", "").replace("pre", "") in ("++", "--"):
             l = x["c"][0]
             if l is not None and l["k"] in ("DeclRefExpr", "MemberExpr"):
                 out.setdefault(l.get("d") or l.get("n"), []).append(x)
